@@ -35,6 +35,15 @@ def codec_name(enc):
     return codecs.lookup(enc).name
 
 
+def safe_codec_name(enc):
+    """Canonical codec name; for bytes content the encoding argument is only a label, so an
+    unknown label is kept verbatim (it can never match an ISO assignment)."""
+    try:
+        return codec_name(enc)
+    except LookupError:
+        return 'unknown:%s' % enc
+
+
 def is_hanzi_pairs(data):
     if len(data) % 2:
         return False
@@ -87,8 +96,6 @@ def spec_part(content, mode, encoding):
     if isinstance(content, (bytes, bytearray)):
         data = bytes(content)
         enc_used = encoding or 'iso-8859-1'
-        if encoding is not None:
-            codecs.lookup(encoding)
     else:
         text = str(content)
         if encoding is not None:
@@ -106,9 +113,9 @@ def spec_part(content, mode, encoding):
     rep = representable(used, data)
     return {'data': data, 'mode': used, 'requested': req, 'representable': rep,
             'encoding': enc_used if used == 'byte' else None,
-            'codec': codec_name(enc_used) if used == 'byte' else None,
+            'codec': safe_codec_name(enc_used) if used == 'byte' else None,
             # segno compares the *spelling* with 'iso-8859-1'; a Latin-1 alias may carry ECI 3 (DESIGN 4.1)
-            'alias': used == 'byte' and codec_name(enc_used) == 'iso8859-1' and enc_used != 'iso-8859-1'}
+            'alias': used == 'byte' and safe_codec_name(enc_used) == 'iso8859-1' and enc_used != 'iso-8859-1'}
 
 
 def spec_parts(content, mode=None, encoding=None):
@@ -614,6 +621,14 @@ def check_symbol(matrix, args, meta=None, props=None):
             out.append(('C06', 'unreadable-under-announced-mask', {'error': err}))
         return [d for d in out if on(d[0])], None, info
     a = normalize_args(args)
+    if 'content' not in args:
+        # structure-only check (no call arguments known): geometry, format/version words, syndromes, tail
+        check_geometry_and_format(s, out)
+        if meta is not None:
+            check_metadata(s, meta, out)
+        if on('C13'):
+            check_tail(s, out)
+        return [d for d in out if on(d[0])], s, info
     try:
         parts = spec_parts(a.get('content'), a.get('mode'), a.get('encoding'))
     except Refuse as ex:
